@@ -40,7 +40,8 @@ LEAN_T = {'int': 'Int', 'str': 'Str', 'bool': 'Bool', 'optpoint': 'Option Point'
           'slist': 'List Setting', 'setting': 'Setting', 'point': 'Point', 'optslist': 'Option (List Setting)',
           'pairs': 'List (Nat × Nat)', 'fmtitems': 'Fmts', 'optint': 'Option Int', 'optstr': 'Option Str', 'char': 'Char',
           'idxmap': 'List (Int × List Setting)', 'ilist': 'List Int',
-          'strlist': 'List Str', 'effdict': 'PyDict', 'effkey': 'Nat', 'effkeys': 'List Nat'}
+          'strlist': 'List Str', 'effdict': 'PyDict', 'effkey': 'Nat', 'effkeys': 'List Nat',
+          'olist': 'List AStr', 'pairlist': 'List (Int × Int)'}
 OPT_OF = {'int': 'optint', 'str': 'optstr', 'slist': 'optslist'}
 BASE_OF = {v: k for k, v in OPT_OF.items()}
 
@@ -57,6 +58,11 @@ class Sig:
         defaults = [None] * (len(a.args) - len(a.defaults)) + list(a.defaults)
         for x, d in list(zip(a.args, defaults))[1:]:
             t = ast.unparse(x.annotation) if x.annotation is not None else None
+            opt_ann = {'Union[str, None]': 'optstr', 'Optional[str]': 'optstr', 'Union[None, str]': 'optstr',
+                       'Union[int, None]': 'optint', 'Optional[int]': 'optint', 'Union[None, int]': 'optint'}
+            if t in opt_ann:
+                self.params.append((x.arg, opt_ann[t], d))
+                continue
             if t not in ANN:
                 raise Unsupported('parameter type %s' % t)
             ty = ANN[t]
@@ -98,6 +104,36 @@ class M:
             if d and not isinstance(e.slice, ast.Slice):
                 k = self.typed(e.slice, env, 'int')
                 return self.hoist('Obj.get %s.fmts %s' % (d, k))
+        return None
+
+    def list_type(self, name):
+        """type of a variable that starts as `[]`: decided by what is appended to it"""
+        for n in ast.walk(self.fn):
+            if isinstance(n, ast.Call) and isinstance(n.func, ast.Attribute) and n.func.attr == 'append' \
+                    and isinstance(n.func.value, ast.Name) and n.func.value.id == name and len(n.args) == 1:
+                a = n.args[0]
+                if isinstance(a, ast.Tuple) and len(a.elts) == 2:
+                    return 'pairlist'
+                if isinstance(a, ast.Subscript) and isinstance(a.slice, ast.Slice):
+                    return 'olist'
+                if isinstance(a, ast.Call) and isinstance(a.func, ast.Name) and a.func.id == 'str':
+                    return 'strlist'
+        return 'slist'
+
+    def obj_expr(self, e, env):
+        """an expression whose value is an object: a name, O[a:b], O.copy(), AnsiString()"""
+        o = self.obj_of(e, env)
+        if o:
+            return o
+        if isinstance(e, ast.Subscript) and isinstance(e.slice, ast.Slice) and e.slice.step is None and self.obj_of(e.value, env):
+            lo = '(none : Option Int)' if e.slice.lower is None else self.as_opt(e.slice.lower, env, 'optint')
+            hi = '(none : Option Int)' if e.slice.upper is None else self.as_opt(e.slice.upper, env, 'optint')
+            return '(AStr.getSlice %s %s %s)' % (self.obj_of(e.value, env), lo, hi)
+        if isinstance(e, ast.Call) and isinstance(e.func, ast.Attribute) and e.func.attr == 'copy' and not e.args and not e.keywords \
+                and self.obj_of(e.func.value, env):
+            return self.obj_of(e.func.value, env)
+        if isinstance(e, ast.Call) and isinstance(e.func, ast.Name) and e.func.id == 'AnsiString' and not e.args and not e.keywords:
+            return '({} : AStr)'
         return None
 
     def assigned_none(self, name):
@@ -188,6 +224,11 @@ class M:
         if isinstance(e, ast.Call) and isinstance(e.func, ast.Attribute) and e.func.attr == 'keys' and not e.args and not e.keywords \
                 and isinstance(e.func.value, ast.Name) and env.get(e.func.value.id) == 'effdict':
             return '(%s.map (·.1))' % mangle(e.func.value.id), 'effkeys'
+        if isinstance(e, ast.Tuple) and len(e.elts) == 2:
+            (a, ta), (b_, tb) = self.ex(e.elts[0], env), self.ex(e.elts[1], env)
+            if ta == tb == 'int':
+                return '(%s, %s)' % (a, b_), 'intpair'
+            raise Unsupported(ast.unparse(e))
         if isinstance(e, ast.List) and e.elts:
             parts = [self.ex(x, env) for x in e.elts]
             if all(t == 'str' for _, t in parts):
@@ -404,6 +445,8 @@ class M:
                 if self.obj_of(e.args[0], env):
                     return '((%s.s).length : Int)' % self.obj_of(e.args[0], env), 'int'      # AnsiString.__len__
                 a, t = self.ex(e.args[0], env)
+                if t in ('optstr', 'optslist'):
+                    a, t = self.hoist('Py.optGet %s' % a), BASE_OF[t]      # len(None) raises: the value is needed
                 if t in ('str', 'slist', 'strlist'):
                     return '((%s).length : Int)' % a, 'int'
             if isinstance(f, ast.Attribute) and f.attr == '_find_setting_reference' and len(e.args) == 2 \
@@ -418,6 +461,24 @@ class M:
                 if f.attr == '_same_setting_references':
                     return '(sameSettingReferences %s %s)' % (a, b_), 'bool'
                 return '(findSettingsReferences %s %s)' % (a, b_), 'pairs'
+            if isinstance(f, ast.Attribute) and f.attr in ('split', 'rsplit') and len(e.args) == 2:
+                a, ta = self.ex(f.value, env)
+                if ta == 'str':
+                    sep = self.as_opt(e.args[0], env, 'optstr')
+                    mx = self.typed(e.args[1], env, 'int')
+                    return self.hoist('Py.pySplit %s %s %s %s' % (a, sep, mx, 'true' if f.attr == 'rsplit' else 'false')), 'strlist'
+            if isinstance(f, ast.Attribute) and f.attr == 'splitlines' and len(e.args) == 1:
+                a, ta = self.ex(f.value, env)
+                if ta == 'str':
+                    return '(Py.splitlines %s %s)' % (a, self.b(e.args[0], env)), 'strlist'
+            if isinstance(f, ast.Attribute) and f.attr in ('find', 'rfind') and len(e.args) in (1, 2):
+                a, ta = self.ex(f.value, env)
+                if ta == 'str' and (f.attr == 'find' or len(e.args) == 1):
+                    sub = self.typed(e.args[0], env, 'str')
+                    st_ = self.typed(e.args[1], env, 'int') if len(e.args) == 2 else '(0 : Int)'
+                    if f.attr == 'find':
+                        return '(Py.findInt %s %s %s)' % (a, sub, st_), 'int'
+                    return '(Py.rfindInt %s %s)' % (a, sub), 'int'
             if isinstance(f, ast.Attribute) and f.attr in ('startswith', 'endswith') and len(e.args) == 1:
                 a, ta = self.ex(f.value, env)
                 if ta == 'str':
@@ -557,6 +618,16 @@ class M:
                 args = self.bind(st.value, self.sigs[st.value.func.attr], env)
                 pre = self.pre(p)
                 return '%s%s(%s %s %s)' % (pre, p, lean_name(st.value.func.attr), o, ' '.join(args))
+            if getattr(self, 'ret', None) == 'olist':
+                a = self.typed(st.value, env, 'olist')
+                pre = self.pre(p)
+                return pre + p + '.ok %s' % a
+            if getattr(self, 'ret', None) == 'otriple' and isinstance(st.value, ast.Tuple) and len(st.value.elts) == 3:
+                xs = [self.obj_expr(x, env) for x in st.value.elts]
+                if all(xs):
+                    pre = self.pre(p)
+                    return pre + p + '.ok (%s, %s, %s)' % tuple(xs)
+                raise Unsupported('return ' + ast.unparse(st.value))
             if getattr(self, 'ret', None) == 'str':
                 a = self.typed(st.value, env, 'str')
                 pre = self.pre(p)
@@ -725,6 +796,9 @@ class M:
                     if isinstance(v, ast.List) and not v.elts and env.get(t.id) in ('strlist', 'slist', 'ilist'):
                         ty = env[t.id]
                         a = '([] : %s)' % LEAN_T[ty]
+                    elif isinstance(v, ast.List) and not v.elts and t.id not in env:
+                        ty = self.list_type(t.id)
+                        a = '([] : %s)' % LEAN_T[ty]
                     want = env.get(t.id) or (self.none_type(t.id, env) if self.assigned_none(t.id) else None)
                     if want in BASE_OF and BASE_OF[want] == ty:
                         a, ty = '(some %s)' % a, want
@@ -860,6 +934,17 @@ class M:
         if isinstance(st, ast.Expr) and isinstance(st.value, ast.Call) and isinstance(st.value.func, ast.Attribute):
             c = st.value
             m = c.func.attr
+            if m == 'append' and isinstance(c.func.value, ast.Name) and env.get(c.func.value.id) == 'pairlist' and len(c.args) == 1 and not c.keywords:
+                x = self.typed(c.args[0], env, 'intpair')
+                pre = self.pre(p)
+                L = mangle(c.func.value.id)
+                return '%s%slet %s : List (Int × Int) := %s ++ [%s]\n%s' % (pre, p, L, L, x, K(env, ind))
+            if m == 'append' and isinstance(c.func.value, ast.Name) and env.get(c.func.value.id) == 'olist' and len(c.args) == 1 and not c.keywords:
+                x = self.obj_expr(c.args[0], env)
+                if x:
+                    pre = self.pre(p)
+                    L = mangle(c.func.value.id)
+                    return '%s%slet %s : List AStr := %s ++ [%s]\n%s' % (pre, p, L, L, x, K(env, ind))
             if m == 'append' and isinstance(c.func.value, ast.Name) and env.get(c.func.value.id) == 'strlist' and len(c.args) == 1 and not c.keywords:
                 x = self.typed(c.args[0], env, 'str')
                 pre = self.pre(p)
@@ -955,7 +1040,7 @@ class M:
                     elif n.func.attr not in ('_find_setting_reference', 'ansi_settings_at'):
                         obj_written = True
             if any(x in env for x in assigned):
-                raise Unsupported('loop body assigns an outer variable')
+                return self.general_loop(st, env, K, ind)
             outer_lists = sorted(x for x in appended if x in env)
             # sorted(O._fmts.keys(), reverse=True)
             if isinstance(it, ast.Call) and isinstance(it.func, ast.Name) and it.func.id == 'sorted' and len(it.args) == 1 \
@@ -1052,15 +1137,29 @@ class M:
         if isinstance(it, ast.Call) and isinstance(it.func, ast.Name) and it.func.id == 'reversed' and len(it.args) == 1 and not it.keywords:
             rev, rng = True, it.args[0]
         tgt = st.target
+        poisoned = []
         if isinstance(tgt, ast.Tuple):
-            if not all(isinstance(x_, ast.Name) and x_.id not in env for x_ in tgt.elts):
+            if not all(isinstance(x_, ast.Name) for x_ in tgt.elts):
                 raise Unsupported('loop target')
+            for x_ in tgt.elts:
+                if x_.id in env:
+                    # the loop variable reuses an outer name: inside the loop it is the loop's, afterwards the name is not
+                    # available any more (Python would leave the last value in it; a later use is refused)
+                    if env[x_.id] != 'int':
+                        raise Unsupported('loop target')
+                    poisoned.append(x_.id)
+                    env = {k_: v_ for k_, v_ in env.items() if k_ != x_.id}
+                    benv = dict(env)
             a, ta = self.ex(rng, env)
             nm = [x_.id for x_ in tgt.elts]
             if ta == 'fmtitems' and len(nm) == 3 and not rev:
                 src = '(%s.map (fun kp_ => ((kp_.1 : Int), kp_.2.add, kp_.2.rem)))' % a
                 xpat, xty = '(%s, %s, %s)' % tuple(mangle(q_) for q_ in nm), 'Int × List Setting × List Setting'
                 benv[nm[0]] = 'int'; benv[nm[1]] = 'slist'; benv[nm[2]] = 'slist'
+            elif ta == 'pairlist' and len(nm) == 2 and not rev:
+                src = a
+                xpat, xty = '(%s, %s)' % tuple(mangle(q_) for q_ in nm), 'Int × Int'
+                benv[nm[0]] = 'int'; benv[nm[1]] = 'int'
             elif ta == 'pairs' and len(nm) == 2:
                 src = '((%s)%s.map (fun ab_ => ((ab_.1 : Int), (ab_.2 : Int))))' % (a, '.reverse' if rev else '')
                 xpat, xty = '(%s, %s)' % tuple(mangle(q_) for q_ in nm), 'Int × Int'
@@ -1074,7 +1173,9 @@ class M:
             x = tgt.id
         else:
             a_, ta_ = self.ex(rng, env)
-            if ta_ == 'effkeys' and not rev:
+            if ta_ == 'strlist' and not rev:
+                src, elem = a_, 'str'
+            elif ta_ == 'effkeys' and not rev:
                 src, elem = a_, 'effkey'
             elif ta_ == 'ilist':
                 src, elem = ('(%s).reverse' % a_ if rev else a_), 'int'
@@ -1340,7 +1441,10 @@ class M:
             env = {'self': 'obj'}
             env.update(dict(entry))
             params = list(entry)
-        if getattr(self, 'ret', None) == 'str':
+        if getattr(self, 'ret', None) in ('olist', 'otriple'):
+            text = self.block(body, env, lambda e, i: (_ for _ in ()).throw(Unsupported('falls off the end')), 1)
+            rty = 'Except Exc (List AStr)' if self.ret == 'olist' else 'Except Exc (AStr × AStr × AStr)'
+        elif getattr(self, 'ret', None) == 'str':
             text = self.block(body, env, lambda e, i: (_ for _ in ()).throw(Unsupported('falls off the end')), 1)
             rty = 'Except Exc Str'
         elif getattr(self, 'ret', None) == 'optpair':
@@ -1533,6 +1637,6 @@ def translate(fns, order, point_fns=None, iter_fns=None, with_assertions=False, 
                     ps = ' '.join('(_%s : %s)' % (n, LEAN_T[t]) for n, t, _ in Sig(fn).params) if fn is not None else ''
             except Exception:   # noqa
                 ps = ''
-            out.append(('/-- %s — NOT TRANSLATED (%s) -/\ndef %s (_self : AStr) %s : Except Exc ' + {'slist': '(List Setting)', 'optpair': '(Option Int × Option Int)', 'str': 'Str'}.get(spec.get('ret'), 'AStr') + ' := .error .outside\ndef %sOk : Bool := false\n')
+            out.append(('/-- %s — NOT TRANSLATED (%s) -/\ndef %s (_self : AStr) %s : Except Exc ' + {'slist': '(List Setting)', 'optpair': '(Option Int × Option Int)', 'str': 'Str', 'olist': '(List AStr)', 'otriple': '(AStr × AStr × AStr)'}.get(spec.get('ret'), 'AStr') + ' := .error .outside\ndef %sOk : Bool := false\n')
                        % (doc, (type(e).__name__ + ': ' + str(e)).replace('-/', '').replace('\n', ' ')[:300], ln, ps, ln))
     return list(zip(names, out))
